@@ -83,7 +83,7 @@ func (gw *parallelGateway) NextAction(ctx context.Context, flow Flow) chan IActi
 		go gw.run(ctx, sender)
 	})
 
-	response := make(chan IAction)
+	response := make(chan IAction, 1)
 	gw.mch <- nextActionMessage{response: response, flow: flow}
 	return response
 }
